@@ -39,6 +39,10 @@ class CsvReader(Filter[Iterable[str], Iterable[MutableSequence]]):
         else:
             return chain([first],lines)
 
+def _unescape(item: str) -> str:
+    #A backslash escapes the char that follows it (so an escaped backslash is a backslash).
+    return re.sub(r'\\(.)', r'\1', item) if '\\' in item else item
+
 def _is_quote_closed(item: str) -> bool:
     #The item starts with a quote char. It is closed when it ends with the same quote char and that ending quote
     #char is not escaped (i.e., it is preceded by an even number of backslashes). A lone quote char is not closed.
@@ -93,7 +97,7 @@ class ArffAttrReader(Filter[Iterable[str], Iterable[Tuple[str,Callable]]]):
                     while not _is_quote_closed(item):
                         item += next(items)
 
-                    item = item.strip().rstrip()[1:-1].replace("\\",'')
+                    item = _unescape(item.strip().rstrip()[1:-1])
                 else:
                     item = item.strip()
 
@@ -272,7 +276,7 @@ class ArffLineReader(Filter[str, Sequence[str]]):
                     item += "," + d_line.popleft()
                 item = item.strip()[1:-1]
 
-            parsed.append(item.replace('\\',''))
+            parsed.append(_unescape(item))
 
         if len(parsed) != self._n_columns:
             raise CobaException(f"We were unable to parse a line in a way that matched the expected attributes.")
